@@ -1,6 +1,7 @@
 import GwModel.ExecFacts
 import GwModel.Gen.Facts
 import GwModel.InsertApply
+import GwModel.FindPtsIndep
 /-! # C05 — Stitching does not depend on reply order or scheduling
 
 Machine level: for every forest, every capacity ≥ 1 and every schedule, results are merged parents-first,
@@ -91,6 +92,15 @@ theorem stitch_independent_of_schedule (ts : Tasks) (msg : Nat → Ins.Msg)
   have h := congrArg Subtype.val this
   rw [foldl_stitch_val, foldl_stitch_val] at h
   exact h
+
+/-- the independence hypothesis of `stitch_independent_of_schedule` holds for the messages of one dependent step:
+    the places `executorFindInsertionPoints` realises for it part at a list index, so two follow-up answers of the
+    same step never contend, whatever they carry and however malformed the parent's reply was -/
+theorem sibling_follow_ups_independent (infos : List Fp.PInfo) (chunk : Ins.KVs) (pre : List Fp.RPt)
+    (paths : List (List Fp.RPt)) (h : Fp.findPts infos chunk pre = .ok paths)
+    (p q : List Fp.RPt) (hp : p ∈ paths) (hq : q ∈ paths) (hne : Fp.sig p ≠ Fp.sig q) (v w : Ins.J) :
+    Ins.Indep (p.map Fp.toPt) v (q.map Fp.toPt) w :=
+  Fp.findPts_pairwise_indep infos chunk pre paths h p hp q hq hne v w
 
 /-- non-vacuity: a root message and two children that insert at different entries of one list; the children
     are independent and both orders stitch the same value -/
